@@ -14,7 +14,7 @@ import (
 // answers), judged like every other C11 case: replay through the engine model composed with the inbox model, and the
 // C11 predicate on the implementation's own traces.
 
-const c11genShapes = 40
+const c11genShapes = 48
 
 func init() {
 	for k := 0; k < c11genShapes; k++ {
@@ -28,6 +28,7 @@ func init() {
 }
 
 type c11gen struct {
+	par    string // enclosing sub-process id ("" = the process)
 	g      *eng.Graph
 	rng    *rec.Rng
 	nt, nc int
@@ -38,7 +39,7 @@ type c11gen struct {
 func (ge *c11gen) task() eng.Frag {
 	ge.nt++
 	ge.budget--
-	return c11task(ge.g, fmt.Sprintf("T%02d", ge.nt))
+	return ge.g.Task("task", fmt.Sprintf("T%02d", ge.nt), ge.par)
 }
 
 func (ge *c11gen) catch() eng.Frag {
@@ -46,18 +47,20 @@ func (ge *c11gen) catch() eng.Frag {
 	ge.budget--
 	e := []c11ev{sigA, msgB, sigC, sigA, msgB}[ge.rng.Intn(5)]
 	id := fmt.Sprintf("C%d", ge.nc)
+	n := ge.g.Add("intermediateCatchEvent", id, ge.par)
+	n.Defs = []eng.EventDef{{Kind: e.kind, Name: e.name}}
 	if ge.rng.Intn(6) == 0 {
 		// a multiple catch event: either definition fires it
 		other := []c11ev{sigA, msgB, sigC}[ge.rng.Intn(3)]
 		if other != e {
-			return c11catch(ge.g, id, e, other)
+			n.Defs = append(n.Defs, eng.EventDef{Kind: other.kind, Name: other.name})
 		}
 	}
-	return c11catch(ge.g, id, e)
+	return eng.Frag{Entry: n, Exit: n}
 }
 
 func (ge *c11gen) block(depth int) eng.Frag {
-	kinds := []string{"task", "catch", "catch", "seq", "seq", "par", "xor", "loop"}
+	kinds := []string{"task", "catch", "catch", "seq", "seq", "par", "xor", "loop", "sub"}
 	k := "task"
 	if depth < 3 && ge.budget > 2 {
 		k = kinds[ge.rng.Intn(len(kinds))]
@@ -82,14 +85,23 @@ func (ge *c11gen) block(depth int) eng.Frag {
 			// a task first, so that the driver decides when each branch's listener arms
 			br[i] = ge.g.Seq(ge.task(), ge.block(depth+1))
 		}
-		return ge.g.Split("parallelGateway", "parallelGateway", "", br, nil, -1)
+		return ge.g.Split("parallelGateway", "parallelGateway", ge.par, br, nil, -1)
 	case "xor":
 		ge.budget -= 2
 		br := []eng.Frag{ge.block(depth + 1), ge.block(depth + 1)}
 		v := []string{"v", "w"}[ge.rng.Intn(2)]
-		return ge.g.Split("exclusiveGateway", "exclusiveGateway", "", br, []*eng.Cond{{Op: "eq", Var: v, K: 1}, nil}, 1)
+		return ge.g.Split("exclusiveGateway", "exclusiveGateway", ge.par, br, []*eng.Cond{{Op: "eq", Var: v, K: 1}, nil}, 1)
+	case "sub":
+		// an embedded sub-process whose content waits for events like everything else
+		ge.budget -= 3
+		outer := ge.par
+		sub := ge.g.SubBegin(outer)
+		ge.par = sub.ID
+		inner := ge.g.Seq(ge.task(), ge.block(depth+1))
+		ge.par = outer
+		return ge.g.SubEnd(sub, inner)
 	case "loop":
-		if ge.loop {
+		if ge.loop || ge.par != "" {
 			return ge.task()
 		}
 		ge.loop = true
